@@ -6,7 +6,7 @@
 //	                                     mag = a-b, mag3 = 3*(a-b), rmag = b-a (results of arbitrary magnitude)
 //	objects are numbered 0,1,2,... in creation order (every creating op appends one, par appends two)
 //	ops:
-//	  new u|s|o            -> -           New / NewStable / NewSorted
+//	  new u|s|o|o:<dir>    -> -           New / NewStable / NewSorted (o: the header's comparator, o:<dir>: its own)
 //	  add r v...           -> -           rem r v... -> -        clr r -> -   (RemoveAll)
 //	  has r v...           -> t|f         size r -> n            emp r -> t|f
 //	  all r                -> LIST        (order as yielded)     str r -> String() with blanks removed
@@ -17,6 +17,7 @@
 //	  sel r P              -> LIST        par r P -> LIST;LIST
 //	  snap                 -> LIST;LIST;...  every live object re-read through All()
 //	  alias                -> none | a-b,...  pairs of objects whose members share a backing array (cap>0)
+//	  sos r...             -> LIST        positions of the arguments kept by New[Set[int]](a.Equal(b)).Add(r...)
 //	  pow r                -> SUBSET/SUBSET/...        parts r -> PART#PART#...  PART = BLOCK/BLOCK/... | E
 //	LIST = v,v,... | e ; predicates P: m<mask> (bit x of mask, 0<=x<62), lt<c> (x < c)
 package main
@@ -43,19 +44,22 @@ type pool struct {
 	cmp  generic.CompareFunc[int]
 }
 
-func newPool(dir string) *pool {
-	p := &pool{eq: generic.NewEqualFunc[int](), cmp: generic.NewCompareFunc[int]()}
+func comparator(dir string) generic.CompareFunc[int] {
 	switch dir {
 	case "rev":
-		p.cmp = generic.NewReverseCompareFunc[int]()
+		return generic.NewReverseCompareFunc[int]()
 	case "mag": // magnitudes: legal under CompareFunc's negative / zero / positive contract
-		p.cmp = func(a, b int) int { return a - b }
+		return func(a, b int) int { return a - b }
 	case "mag3":
-		p.cmp = func(a, b int) int { return 3 * (a - b) }
+		return func(a, b int) int { return 3 * (a - b) }
 	case "rmag":
-		p.cmp = func(a, b int) int { return b - a }
+		return func(a, b int) int { return b - a }
 	}
-	return p
+	return generic.NewCompareFunc[int]()
+}
+
+func newPool(dir string) *pool {
+	return &pool{eq: generic.NewEqualFunc[int](), cmp: comparator(dir)}
 }
 
 func (p *pool) mk(k string) set.Set[int] {
@@ -64,8 +68,10 @@ func (p *pool) mk(k string) set.Set[int] {
 		return set.New[int](p.eq)
 	case "s":
 		return set.NewStable[int](p.eq)
+	case "o":
+		return set.NewSorted[int](p.cmp) // the header's comparator
 	}
-	return set.NewSorted[int](p.cmp)
+	return set.NewSorted[int](comparator(strings.TrimPrefix(k, "o:"))) // o:<dir>: this set's own comparator
 }
 
 func b(x bool) string {
@@ -222,6 +228,17 @@ func (p *pool) exec(op string) (res string) {
 		return strings.Join(ss, ";")
 	case "alias":
 		return aliasPairs(p)
+	case "sos":
+		ss := set.New[set.Set[int]](func(a, b set.Set[int]) bool { return a.Equal(b) })
+		var kept []int
+		for i := 1; i < len(f); i++ {
+			n := ss.Size()
+			ss.Add(o(i))
+			if ss.Size() != n {
+				kept = append(kept, i-1)
+			}
+		}
+		return list(kept)
 	case "pow":
 		ps := set.Powerset[int](o(1))
 		var ss []string
@@ -454,6 +471,55 @@ func algebra(w *tr.W, np int, dirs []string) {
 	}
 }
 
+// mixed: sorted sets that each have their own comparator (ascending, descending, magnitudes), in
+// every pairing and in triples, against each other and against the unordered and the stable set:
+// Equal / IsSubset / IsSuperset in both directions, Union / Intersection / Difference with every
+// receiver, deduplication in a set of sets, everything re-read afterwards.
+func mixed(w *tr.W, np int, np3 int) {
+	for _, d0 := range allDirs {
+		for _, d1 := range allDirs {
+			for a := 0; a < np; a++ {
+				for bb := 0; bb < np; bb++ {
+					ops := []string{"new o:" + d0, "new o:" + d1, "new u", "new s"}
+					ops = append(ops, prep(a, 0)...)
+					ops = append(ops, prep(bb, 1)...)
+					ops = append(ops, prep(a, 2)...)
+					ops = append(ops, prep(bb, 3)...)
+					ops = append(ops, "snap",
+						"eq 0 1", "eq 1 0", "sub 0 1", "sub 1 0", "sup 0 1", "sup 1 0",
+						"eq 0 2", "eq 2 0", "eq 1 3", "eq 3 1", "sub 0 3", "sup 2 1",
+						"sos 0 1 2 3", "sos 1 0", "sos 3 2 1 0",
+						"uni 0 1", "uni 1 0", "int 0 1", "int 1 0", "dif 0 1", "dif 1 0", "int 2 0 1", "int 0 1 2 3", "snap", "alias",
+						"eq 4 5", "eq 6 7", "sos 4 5 6 7", "clone 1", "eq 1 12", "eq 12 0", "snap")
+					runCase(w, "det asc", ops)
+				}
+			}
+		}
+	}
+	for i0, d0 := range allDirs {
+		for i1, d1 := range allDirs {
+			for i2, d2 := range allDirs {
+				if i0 == i1 && i1 == i2 {
+					continue
+				}
+				for a := 0; a < np3; a++ {
+					for bb := 0; bb < np3; bb++ {
+						for c := 0; c < np3; c++ {
+							ops := []string{"new o:" + d0, "new o:" + d1, "new o:" + d2}
+							ops = append(ops, prep(a, 0)...)
+							ops = append(ops, prep(bb, 1)...)
+							ops = append(ops, prep(c, 2)...)
+							ops = append(ops, "snap", "uni 0 1 2", "int 0 1 2", "dif 0 1 2", "int 1 2 0", "int 2 0 1", "snap",
+								"eq 0 1", "eq 1 2", "eq 2 0", "sub 0 1", "sup 1 2", "sos 0 1 2", "sos 2 1 0", "eq 3 4", "eq 4 6", "alias")
+							runCase(w, "det rev", ops)
+						}
+					}
+				}
+			}
+		}
+	}
+}
+
 // random: larger universes, all operations on a growing pool of objects.
 func random(w *tr.W, r *rng.R, cases int, mode string) {
 	for c := 0; c < cases; c++ {
@@ -465,7 +531,11 @@ func random(w *tr.W, r *rng.R, cases int, mode string) {
 		nobj := r.Range(1, 4)
 		var ops []string
 		for i := 0; i < nobj; i++ {
-			ops = append(ops, "new "+kinds[r.Intn(3)])
+			k := kinds[r.Intn(3)]
+			if k == "o" && r.Bool() {
+				k = "o:" + allDirs[r.Intn(len(allDirs))] // this sorted set's own comparator
+			}
+			ops = append(ops, "new "+k)
 		}
 		steps := r.Range(5, 70)
 		if u == 120 {
@@ -502,7 +572,8 @@ func random(w *tr.W, r *rng.R, cases int, mode string) {
 			case x < 70:
 				ops = append(ops, fmt.Sprintf("all %d", o()), fmt.Sprintf("str %d", o()))
 			case x < 76:
-				ops = append(ops, fmt.Sprintf("eq %d %d", o(), o()), fmt.Sprintf("sub %d %d", o(), o()), fmt.Sprintf("sup %d %d", o(), o()))
+				ops = append(ops, fmt.Sprintf("eq %d %d", o(), o()), fmt.Sprintf("sub %d %d", o(), o()), fmt.Sprintf("sup %d %d", o(), o()),
+					fmt.Sprintf("sos %d %d %d", o(), o(), o()))
 			case x < 79:
 				ops = append(ops, fmt.Sprintf("clone %d", o()))
 				nobj++
@@ -540,7 +611,14 @@ func big(w *tr.W, r *rng.R, cases int, mode string) {
 	for c := 0; c < cases; c++ {
 		dir := allDirs[r.Intn(len(allDirs))]
 		u := r.Range(200, 1200)
-		ops := []string{"new " + kinds[r.Intn(3)], "new " + kinds[r.Intn(3)], "new " + kinds[r.Intn(3)]}
+		pick := func() string {
+			k := kinds[r.Intn(3)]
+			if k == "o" {
+				k = "o:" + allDirs[r.Intn(len(allDirs))]
+			}
+			return k
+		}
+		ops := []string{"new " + pick(), "new " + pick(), "new " + pick()}
 		n := r.Range(120, 420)
 		for i := 0; i < n; i++ {
 			o := r.Intn(3)
@@ -612,7 +690,7 @@ func (s freeSource) Seed(int64)   {}
 var freeSrc = freeSource{rng.FromEnv(1601)}
 
 func main() {
-	mode := flag.String("mode", "hist", "hist|algebra|random|power|free")
+	mode := flag.String("mode", "hist", "hist|algebra|mixed|random|power|free")
 	tier := flag.String("tier", "quick", "quick|thorough")
 	replay := flag.String("replay", "", "case file to re-execute")
 	flag.Parse()
@@ -651,6 +729,12 @@ func main() {
 			algebra(w, 10, []string{"asc"})
 			algebra(w, 4, []string{"rev", "mag"})
 			algebra(w, 3, []string{"mag3", "rmag"})
+		}
+	case "mixed":
+		if thorough {
+			mixed(w, len(preps), 6)
+		} else {
+			mixed(w, 8, 3)
 		}
 	case "random":
 		r := rng.FromEnv(16)
